@@ -25,22 +25,29 @@ ASSUMPTIONS = ['loop bound 2 suffices for reaching definitions in structured pro
 
 
 def neutralise_returns(src):
-    """The program supp effectively analyses: `return X` becomes an expression statement (same columns), bare
-    `return` becomes `pass`. Generated programs have one statement per line."""
-    out = []
+    """The program supp effectively analyses: `return X` becomes the expression statement `0 or   X` and a bare `return`
+    becomes `pass  ` - both exactly as long as what they replace, so every other position of the program stays where it is
+    (statements may share a line)."""
+    try:
+        tree = ast.parse(src)
+    except SyntaxError:
+        return src, False
+    lines = src.splitlines()
     changed = False
-    for line in src.splitlines():
-        st = line.strip()
-        ind = line[:len(line) - len(line.lstrip())]
-        if st == 'return':
-            out.append(ind + 'pass')
+    for node in ast.walk(tree):
+        if isinstance(node, ast.Return):
+            line = lines[node.lineno - 1]
+            c = node.col_offset
+            if line[c:c + 6] != 'return' or not line.isascii():
+                continue
+            if node.value is None:
+                lines[node.lineno - 1] = line[:c] + 'pass  ' + line[c + 6:]
+            elif line[c:c + 7] == 'return ':
+                lines[node.lineno - 1] = line[:c] + '0 or   ' + line[c + 7:]
+            else:
+                continue
             changed = True
-        elif st.startswith('return '):
-            out.append(ind + 'use(   ' + st[7:] + ')')
-            changed = True
-        else:
-            out.append(line)
-    return '\n'.join(out) + '\n', changed
+    return '\n'.join(lines) + '\n', changed
 
 
 class NoReturnView(object):
